@@ -151,6 +151,68 @@ const CTORS: &[Ctor] = &[
     Ctor::Desc,
 ];
 
+/// Simultaneous scrapes (statistical, free-running threads): a fresh registry with `nlabels` common labels and an
+/// optional prefix, a counter and a one-child counter vector registered; `nthreads` threads released together call
+/// gather(), then gather() is called once more alone. Every sample of every result must carry valid, pairwise distinct
+/// label names and every family a valid name. case = [0xFE x 5, nthreads, nlabels, prefix?].
+fn gather_race(cfg: &[u8], attempts: usize) -> Result<(), (String, String)> {
+    let nthreads = (cfg[5] as usize).clamp(2, 4);
+    let nlabels = (cfg[6] as usize).clamp(1, 3);
+    let prefix = if cfg[7] % 2 == 1 { Some("p".to_string()) } else { None };
+    let check = |who: &str, round: usize, fams: &[prometheus::proto::MetricFamily]| -> Result<(), (String, String)> {
+        for f in fams {
+            if !metric_name_ok(f.name()) {
+                return Err(("invalid-family-name-exposed".into(), format!("simultaneous gathers, round {}, {}: family name {:?}", round, who, f.name())));
+            }
+            for m in f.get_metric() {
+                let mut names: Vec<&str> = m.get_label().iter().map(|l| l.name()).collect();
+                if let Some(n) = names.iter().find(|n| !label_name_ok(n)) {
+                    return Err(("invalid-label-name-exposed".into(), format!("simultaneous gathers, round {}, {}: label name {:?}", round, who, n)));
+                }
+                let shown = format!("{:?}", names);
+                names.sort();
+                if names.windows(2).any(|w| w[0] == w[1]) {
+                    return Err((
+                        "duplicate-label-name-exposed".into(),
+                        format!("{} threads gathered a registry with {} common labels at the same moment (round {}); {} then shows a sample with labels {}", nthreads, nlabels, round, who, shown),
+                    ));
+                }
+            }
+        }
+        Ok(())
+    };
+    for round in 0..attempts {
+        let common: HashMap<String, String> = ["zone", "rack", "host"].iter().take(nlabels).map(|k| (k.to_string(), "v".to_string())).collect();
+        let Ok(reg) = Registry::new_custom(prefix.clone(), Some(common)) else { return Ok(()) };
+        let c = Counter::with_opts(Opts::new("c", "h")).unwrap();
+        let v = CounterVec::new(Opts::new("cv", "h").const_label("k", "1"), &["kind"]).unwrap();
+        v.with_label_values(&["x"]).inc();
+        let _ = reg.register(Box::new(c));
+        let _ = reg.register(Box::new(v));
+        let ready = std::sync::atomic::AtomicUsize::new(0);
+        let results: Vec<Vec<prometheus::proto::MetricFamily>> = std::thread::scope(|s| {
+            let hs: Vec<_> = (0..nthreads)
+                .map(|_| {
+                    let (reg, ready) = (&reg, &ready);
+                    s.spawn(move || {
+                        ready.fetch_add(1, std::sync::atomic::Ordering::SeqCst);
+                        while ready.load(std::sync::atomic::Ordering::SeqCst) < nthreads {
+                            std::hint::spin_loop();
+                        }
+                        reg.gather()
+                    })
+                })
+                .collect();
+            hs.into_iter().map(|h| h.join().unwrap_or_default()).collect()
+        });
+        for (i, r) in results.iter().enumerate() {
+            check(&format!("the gather of thread {}", i), round, r)?;
+        }
+        check("a later gather made alone", round, &reg.gather())?;
+    }
+    Ok(())
+}
+
 /// One cell of the exhaustive scan: scalar value `u` as leading / non-leading character of a metric
 /// name and of a label name, through `Desc::new`.
 fn scan_cell(u: u32, variant: u8) -> Result<(), (String, String)> {
@@ -212,17 +274,34 @@ impl Property for C09 {
         });
         stats.extra.push(("code_point_scan_cells".into(), serde_json::json!(cells.load(std::sync::atomic::Ordering::Relaxed))));
         stats.extra.push(("code_point_scan_exhaustive".into(), serde_json::json!(true)));
-        match found.into_inner().unwrap() {
-            Some(f) => Err(f),
-            None => Ok(()),
+        if let Some(f) = found.into_inner().unwrap() {
+            return Err(f);
         }
+        // the "as a result" clause under simultaneous scrapes: free-running threads gather a labelled registry at the
+        // same moment (first scrape included), then one more gather is made alone
+        let mut rounds = 0u64;
+        for nthreads in 2..=3u8 {
+            for nlabels in 1..=3u8 {
+                for prefix in 0..=1u8 {
+                    let cfg = [0xFE, 0xFE, 0xFE, 0xFE, 0xFE, nthreads, nlabels, prefix];
+                    let attempts = if _tier == Tier::Quick { 250 } else { 20_000 };
+                    rounds += attempts as u64;
+                    if let Err((sig, d)) = gather_race(&cfg, attempts) {
+                        return Err((sig, d, cfg.to_vec()));
+                    }
+                }
+            }
+        }
+        stats.extra.push(("simultaneous_gather_rounds".into(), serde_json::json!(rounds)));
+        Ok(())
     }
     fn rule(&self) -> &'static str {
         "case = constructor (5 scalar with_opts, 5 *Vec::new, PullingGauge::new, Desc::new) x namespace/subsystem/name/help/ \
          constant and variable label names drawn from pools mixing valid identifiers with empty, leading digit, ':' in labels, \
          '-', blank, non-ASCII letters and digits (e-acute, sharp s, Cyrillic a, Arabic-Indic 3, full-width A/1, superscript 2, \
          roman numeral, titlecase digraph), `le`, `__name__`, names repeated across the constant and variable sets; then the accepted \
-         metric gets children and is gathered through Registry::new_custom(prefix, common labels) drawn from the same pools, in \
+         metric gets children and is gathered through Registry::new_custom(prefix, common labels) drawn from the same pools (a final \
+         stage gathers labelled registries from 2-3 free-running threads at the same moment and once more afterwards), in \
          half of the cases with constant labels together with a second collector of the same kind under the same name (another \
          constant-label value) so that gather() merges two families. \
          Oracle: independent byte-level recogniser decides Ok/Err; every gathered family/label name must be valid and label names \
@@ -244,6 +323,15 @@ impl Property for C09 {
 
     fn run(&self, src: &mut Src, rep: &mut Report) -> Verdict {
         // a 6-byte case starting with 0xFF is one cell of the exhaustive per-code-point scan (see `post`)
+        // an 8-byte case starting with 0xFE x 5 is one configuration of the simultaneous-gather stage (see `post`)
+        if src.data().len() == 8 && src.data()[..5] == [0xFE; 5] {
+            let cfg = src.data().to_vec();
+            rep.class("simultaneous-gather-configuration");
+            return match gather_race(&cfg, 3000) {
+                Ok(()) => Verdict::Pass,
+                Err((sig, d)) => fail(sig, d),
+            };
+        }
         if src.data().len() == 6 && src.data()[0] == 0xFF {
             let _ = src.byte();
             let u = src.u32raw();
